@@ -51,6 +51,8 @@ class SxMath:
 
     @staticmethod
     def log10(x):
+        if type(x).__name__ == 'Dual':
+            return x.log10()
         if is_sym(x):
             if SBool(lift_real(x) <= 0):
                 raise ValueError("math domain error")
@@ -199,6 +201,10 @@ def sx_int(*args, **kw):
         return core.strunc(x)
     if isinstance(x, SBool):
         return SInt(z3.If(x.e, 1, 0))
+    if type(x).__name__ == 'SFloat64':
+        # truncation toward zero of a double; the value is concretised by forks
+        bv = z3.fpToSBV(z3.RTZ(), x.e, z3.BitVecSort(32))
+        return cur().concretize_int(z3.BV2Int(bv, is_signed=True), 'int(float64)', cap=8)
     return _b.int(*args, **kw)
 
 
@@ -409,3 +415,73 @@ BUILTIN_SHIMS = {
     'min': sx_min, 'str': sx_str, 'ord': sx_ord, 'chr': sx_chr,
     'isinstance': sx_isinstance,
 }
+
+
+# -- decimal.Decimal ---------------------------------------------------------------
+
+import decimal as _decimal
+
+
+class SDec:
+    """exact decimal arithmetic on a symbolic real (decimal.Decimal stand-in):
+    round() = nearest multiple (ties: see core.sround), % = remainder with the
+    sign of the dividend, comparisons exact"""
+    __slots__ = ('x',)
+
+    def __init__(self, x):
+        self.x = x
+
+    @staticmethod
+    def _v(o):
+        if isinstance(o, SDec):
+            return o.x
+        if isinstance(o, _decimal.Decimal):
+            return core.Fraction(o)
+        return o
+
+    def __round__(self, n=None):
+        return SDec(core.sround(self.x, n))
+
+    def __mod__(self, o):
+        b = SDec._v(o)
+        if is_sym(b):
+            raise Unsupported("Decimal % symbolic modulus")
+        b = core.Fraction(b) if not isinstance(b, core.Fraction) else b
+        if b == 0:
+            raise _decimal.InvalidOperation
+        ab = abs(b)
+        q = core.strunc(self.x / ab)          # truncation toward zero
+        return SDec(self.x - q * ab)
+
+    def __sub__(self, o):
+        return SDec(self.x - SDec._v(o))
+
+    def __add__(self, o):
+        return SDec(self.x + SDec._v(o))
+
+    def __lt__(self, o):
+        return self.x < SDec._v(o)
+
+    def __le__(self, o):
+        return self.x <= SDec._v(o)
+
+    def __gt__(self, o):
+        return self.x > SDec._v(o)
+
+    def __ge__(self, o):
+        return self.x >= SDec._v(o)
+
+    def __eq__(self, o):
+        return self.x == SDec._v(o)
+    __hash__ = None
+
+    def __format__(self, spec):
+        return cur().format_hook(self.x, spec)
+
+
+def sx_Decimal(x=0, *a):
+    if isinstance(x, SDec):
+        return x
+    if is_sym(x):
+        return SDec(x)
+    return _decimal.Decimal(x, *a)
